@@ -4,6 +4,7 @@ package main
 import (
 	"encoding/json"
 	"math/rand"
+	"time"
 
 	"github.com/welllog/golib/ringz"
 	"github.com/welllog/golib/verifshim/sched"
@@ -86,6 +87,11 @@ func (o *obj) Exec(tid int, c sched.Call) []interface{} {
 	case "popwaitneg":
 		v, ok := o.r.PopWait(-1)
 		return []interface{}{v, ok}
+	case "popwait20":
+		v, ok := o.r.PopWait(20 * time.Millisecond)
+		return []interface{}{v, ok}
+	case "pushwait20":
+		return []interface{}{o.r.PushWait(int(c.Arg[0].(float64)), 20*time.Millisecond)}
 	case "len":
 		return []interface{}{o.r.Len()}
 	case "isempty":
@@ -150,13 +156,21 @@ func gen(rng *rand.Rand) json.RawMessage {
 				prog[t] = append(prog[t], []interface{}{"push", 10*(t+1) + k})
 				pushes++
 			case x < 5:
-				prog[t] = append(prog[t], []interface{}{"pushwait0", 10*(t+1) + k})
+				if rng.Intn(3) == 0 {
+					prog[t] = append(prog[t], []interface{}{"pushwait20", 10*(t+1) + k})
+				} else {
+					prog[t] = append(prog[t], []interface{}{"pushwait0", 10*(t+1) + k})
+				}
 				pushes++
 			case x < 8:
 				prog[t] = append(prog[t], []interface{}{"pop"})
 				pops++
 			case x < 9:
-				prog[t] = append(prog[t], []interface{}{"popwait0"})
+				if rng.Intn(3) == 0 {
+					prog[t] = append(prog[t], []interface{}{"popwait20"})
+				} else {
+					prog[t] = append(prog[t], []interface{}{"popwait0"})
+				}
 				pops++
 			case x < 10:
 				prog[t] = append(prog[t], []interface{}{[]string{"len", "isempty", "isfull"}[rng.Intn(3)]})
